@@ -1075,7 +1075,7 @@ class WeightedTally(StatisticsInterface):
             The weighted variance of all observations since the initialization, 
             or NaN when too few (non-zero) observations were registered.
         """
-        if self._n > 0:
+        if self._n > 0 and self._sum_of_weights > 0.0:
             w_pop_var = self._weight_times_variance / self._sum_of_weights
             if biased:
                 return w_pop_var
